@@ -33,6 +33,14 @@ def main():
     crate = meta["crate"]
     feat = ["--features", meta["features"]] if meta.get("features") else []
     res = {"seed": os.path.basename(sd), "property": meta["property"], "crate": crate, "checks": {}, "ran_at": time.strftime("%F %T")}
+    if skip_confirm and os.path.exists(os.path.join(sd, "result.json")):
+        try:
+            prev = json.load(open(os.path.join(sd, "result.json")))
+            for k in ("existing_lib_tests_pass_with_patch", "existing_tests_tail", "demo_fails_with_patch", "demo_passes_pristine", "confirm_s"):
+                if k in prev: res[k] = prev[k]
+            res["confirmed_at"] = prev.get("confirmed_at", prev.get("ran_at"))
+        except Exception:
+            pass
     if not os.path.exists(SCRATCH):
         rc, out = sh(["git", "-C", "/repo", "worktree", "add", "--detach", SCRATCH])
         assert rc == 0, out
